@@ -176,10 +176,41 @@ def shapes_(draw: Any) -> Shape:
     )
 
 
+def _add_fan_imports(draw: Any, unit: Unit) -> None:
+    """The last file additionally imports 3-4 small schemas of which two have the SAME file name in different
+    directories (copies of a shared schema under vendor/ and legacy/, different proto names): whatever collects
+    per-import strings in a set, or keys a table by file name, meets duplicates and several entries here."""
+    from ..model import Field, File, Import, Message, TBase, set_parents
+
+    main = unit.files[-1]
+    taken = {f.proto for f in unit.files} | {it.name for it in main.items if hasattr(it, "name")}
+    specs = [("fanvendor", "shared", "vendor/geo"), ("fanlegacy", "shared", "legacy/geo"), ("fanunits", "units", draw(st.sampled_from(["", "vendor"]))), ("fanextra", "extra", "")]
+    specs = specs[: draw(st.integers(3, 4))]
+    if any(p in taken for p, _, _ in specs):
+        return
+    new = []
+    for proto, base, sub in draw(st.permutations(specs)):
+        f = File(proto, base)
+        f.subdir = sub
+        m = Message("Fan" + proto[3:].capitalize(), False)
+        m.items.append(Field("value", TBase("uint", draw(st.integers(1, 16))), 1))
+        f.items.append(m)
+        new.append(f)
+    for f in new:
+        unit.files.insert(len(unit.files) - 1, f)
+    pos = len(main.imports())
+    for f in new:
+        main.items.insert(pos, Import(f, None))
+        pos += 1
+    set_parents(unit)
+
+
 @st.composite
 def fresh_cases(draw: Any) -> FreshCase:
     trad = draw(st.booleans())
     unit = draw(S.units(features(trad)))
+    if draw(st.integers(0, 3)) == 1:
+        _add_fan_imports(draw, unit)
     sc = schema_of(unit, draw(styles()), "trailing note" if draw(st.booleans()) else None)
     k = len(sc.files) - 1 if draw(st.integers(0, 3)) else draw(st.integers(0, len(sc.files) - 1))
     fname = sc.files[k]
